@@ -5,6 +5,7 @@ mod c02;
 mod c03;
 mod c04;
 mod c07;
+mod c10;
 mod c11;
 mod c13;
 mod c14;
@@ -57,6 +58,7 @@ fn main() {
         "c04-legacy" => c04::legacy(rest),
         "c07-run" => c07::run(rest),
         "c12-extra" => c07::extra(rest),
+        "c10-child" => c10::child(rest),
         "c11-replay" => c11::replay(rest),
         "c13-replay" => c13::replay(rest),
         "c13-record" => c13::record(rest),
